@@ -125,7 +125,7 @@ Smat(o, x) == IF o.cell.sid /\ x = "obj" THEN "identity" ELSE x
 
 Init ==
   /\ pc = "choose"
-  /\ obj = [cell |-> [name |-> "none", ext |-> FALSE, mag |-> "none", masses |-> "std", generic |-> FALSE, snfS |-> FALSE, fragile |-> FALSE, sid |-> TRUE],
+  /\ obj = [cell |-> [name |-> "none", ext |-> FALSE, mag |-> "none", masses |-> "std", generic |-> FALSE, snfS |-> FALSE, fragile |-> FALSE, sid |-> TRUE, allIndep |-> FALSE],
             calc |-> "none", ds |-> NoDs, fc |-> "none", nac |-> [kind |-> "none", factor |-> FALSE], np |-> NpObj0]
   /\ st = [fs |-> "unset", disp |-> "unset", fc |-> "unset", born |-> "unset", eps |-> "unset"]
   /\ comp = "F"
@@ -231,10 +231,15 @@ SelectFC ==
   /\ pc' = "produce"
   /\ UNCHANGED <<obj, st, comp, args, env, yaml, rd>>
 
+(* a type-1 dataset made with the crystal symmetry displaces the symmetry-independent atoms only:   *)
+(* where some primitive atom is the image of another (~allIndep) it cannot be solved with the       *)
+(* symmetry switched off (is_symmetry=False handed to load())                                       *)
+Unsolvable == ld.ds.type = 1 /\ obj.np.issym /\ ~ld.np.issym /\ ~obj.cell.allIndep
 Produce ==
   /\ pc = "produce"
   /\ IF ld.fc.src = "none" /\ args.produceFc /\ ld.ds.forces
-       THEN IF ld.ds.type = 2 /\ ~HasFcSolver
+       THEN IF Unsolvable THEN ld' = [ld EXCEPT !.status = "raised", !.why = "dataset"]
+            ELSE IF ld.ds.type = 2 /\ ~HasFcSolver
               THEN ld' = [ld EXCEPT !.status = "raised", !.why = "solver"]     \* ForceCalculatorRequiredError
               ELSE ld' = [ld EXCEPT !.fc = [src |-> "produced", layout |-> Layout(args), sym |-> TRUE]]
        ELSE ld' = ld
@@ -328,6 +333,7 @@ ReqLoads(o, a, r, solver) ==
     \/ r.why = "solver" /\ ~solver /\ r.ds.type = 2 /\ r.ds.forces /\ r.fc.src = "none"
     \/ r.why = "structure" /\ CellSrc(a) \in {"ucfile", "scfile"} /\ Reader(a.calcArg) # a.fmt
     \/ r.why = "symmetry" /\ o.cell.fragile /\ o.np.tol = "loose" /\ (a.np.tol = "default" \/ ~FromFile(a))
+    \/ r.why = "dataset" /\ o.np.issym /\ ~a.np.issym /\ ~o.cell.allIndep /\ a.produceFc
 
 (* ---- what save() does not record ---- *)
 (* the saved dataset and force constants are indexed by the atoms of the saved supercell: *)
